@@ -37,14 +37,14 @@
 uint8_t vf_fs_used[VF_FS_NFILES]; uint8_t vf_fs_name[VF_FS_NFILES][VF_FS_NAMELEN]; uint32_t vf_fs_len[VF_FS_NFILES]; uint8_t vf_fs_data[VF_FS_NFILES][VF_FS_FSIZE];
 uint32_t vf_fs_id[VF_FS_NFILES];                    /* content identity tag (rotation checks: which generation a slot holds) */
 uint8_t vf_fd_open[VF_FS_NFD], vf_fd_file[VF_FS_NFD]; uint32_t vf_fd_off[VF_FS_NFD];
-uint8_t vf_fs_crashed; uint32_t vf_fs_syscalls, vf_fs_crash_at; static uint32_t vf_errno;
+uint8_t vf_fs_crashed, vf_fs_crash_disarmed; uint32_t vf_fs_syscalls, vf_fs_crash_at; static uint32_t vf_errno;
 uint32_t vf_rn_n; int8_t vf_rn_from[VF_FS_NRENAMES], vf_rn_to[VF_FS_NRENAMES]; uint8_t vf_rn_ok[VF_FS_NRENAMES];
 _Bool nondet_bool(void);
 static void vf_fs_crashpoint(void)
 {
   vf_fs_syscalls++;
 #ifdef VF_FS_CRASH
-  if (!vf_fs_crashed && nondet_bool()) { vf_fs_crashed = 1; vf_fs_crash_at = vf_fs_syscalls; }
+  if (!vf_fs_crashed && !vf_fs_crash_disarmed && nondet_bool()) { vf_fs_crashed = 1; vf_fs_crash_at = vf_fs_syscalls; }
 #endif
 }
 static int vf_fs_nameeq(const uint8_t *a, const uint8_t *b)
@@ -69,8 +69,8 @@ static int vf_fs_create(const uint8_t *path)
 }
 /* harness helper: does a file of that name exist / which slot */
 int vf_fs_slot(const char *path) { return vf_fs_lookup((const uint8_t*)path); }
-/* harness helper: forget all descriptors (process end) and thaw the images for the next process */
-void vf_fs_new_process(void) { for (int d = 0; d < VF_FS_NFD; d++) vf_fd_open[d] = 0; vf_fs_crashed = 0; }
+/* harness helper: forget all descriptors (process end) and thaw the images for the next process, which runs without crash points */
+void vf_fs_new_process(void) { for (int d = 0; d < VF_FS_NFD; d++) vf_fd_open[d] = 0; vf_fs_crashed = 0; vf_fs_crash_disarmed = 1; }
 uint32_t *x___errno_location(void) { return &vf_errno; }
 uint8_t *x_strerror(uint32_t e) { static uint8_t msg[] = "error"; return msg; }
 uint32_t x_access(uint8_t *path, uint32_t mode) { if (vf_fs_lookup(path) >= 0) return 0; vf_errno = 2; return (uint32_t)-1; }
